@@ -199,10 +199,11 @@ static void hx_canon(hx_buf *b, htp_connp_t *c) {
         if (ord < 0 || ord >= HX_MAXTX) continue;
         hx_txrec *r = &o->tx[ord];
         /* distance of each stream from the point where the side's rank was last raised (order / order_prior), saturated above any token length */
-        int64_t rq = c->in_stream_offset - r->rank_pos[0], rs = c->out_stream_offset - r->rank_pos[1];
+        /* a side whose rank was never raised has no such point (its distance would be the absolute stream offset, which is no part of the state) */
+        int64_t rq = r->rank_pos[0] ? c->in_stream_offset - (r->rank_pos[0] - 1) : 0, rs = r->rank_pos[1] ? c->out_stream_offset - (r->rank_pos[1] - 1) : 0;
         hb_printf(b, "mon %zu: rk=%d/%d ls=%d n=%d/%d/%d em=%d/%d bl=%lld/%lld rp=%d/%d\n", i, r->rank[0], r->rank[1], r->last_status, r->n_req_complete,
                   r->n_res_complete, r->n_tx_complete, r->end_markers[0], r->end_markers[1], (long long) r->body_len[0], (long long) r->body_len[1],
-                  (int) (rq > 255 ? 255 : rq < 0 ? -1 : rq), (int) (rs > 255 ? 255 : rs < 0 ? -1 : rs));
+                  (int) (rq > 255 ? 255 : rq < -255 ? -255 : rq), (int) (rs > 255 ? 255 : rs < -255 ? -255 : rs));
     }
     /* sticky M-api state */
 }
